@@ -25,7 +25,9 @@ for d in $seeds; do
     echo "$res,\"applies\":false}" > $d/confirm.json; echo "$id: patch does not apply"; continue
   fi
   git reset -q 2>/dev/null
-  suite=$(cargo nextest run --workspace --no-fail-fast --offline --test-threads 8 2>&1 | grep -E "Summary|error: could not compile" | tail -1)
+  # the suite runs in a private network namespace: test::timestamp talks to whatever other RustDDS participant is on the host and can hang when other jobs run tests
+  NS='ip link set lo up; ip link add veth0 type veth peer name veth1; ip addr add 10.77.0.1/24 dev veth0; ip link set veth0 up; ip link set veth1 up; ip route add 224.0.0.0/4 dev veth0'
+  suite=$(timeout 1200 unshare -rn sh -c "$NS; cargo nextest run --workspace --no-fail-fast --offline --test-threads 8" 2>&1 | grep -E "Summary|error: could not compile" | tail -1)
   suite_ok=false; echo "$suite" | grep -q "624 passed" && suite_ok=true
   sec_build=skipped
   if [ -n "$sec" ]; then cargo build --offline --features security >/dev/null 2>&1 && sec_build=ok || sec_build=FAILED; fi
